@@ -114,7 +114,34 @@ func runC03(c *core.Case) {
 		}
 		H, V = pick(minH), pick(minV)
 	}
+	veryLong := c.I >= c03Directed(c.Tier) && (r.P(0.0002) || (c.Tier == "thorough" && r.P(0.0002)))
+	if veryLong {
+		// very long list (2^15 .. 2^17 + 3 IDs) at one zoom pair, targets equal or one level coarser (no expansion); a
+		// duplicate and a child of the first ID sit far from it, the last few IDs are distinct from everything else
+		z := genID(r, 4, 30, 4, 30)
+		n := veryLongLen(r)
+		ids = ids[:0]
+		for len(ids) < n {
+			ids = append(ids, genID(r, z.H, z.H, z.V, z.V))
+		}
+		ids[n/2+7] = ids[0]
+		ids[n-2] = ids[1]
+		H, V = z.H-int64(r.Intn(2)), z.V-int64(r.Intn(2))
+		c.Tag("very-long-list")
+	}
 	in := ref.Exts(ids)
+	respelled := false
+	if !veryLong && c.I >= c03Directed(c.Tier) && r.P(0.04) {
+		// numerals spelled in a non-canonical way the integer parser accepts ("+5", "007", "-0"): still the same voxels
+		k := r.Intn(len(in))
+		in[k] = respell(r, in[k])
+		if r.Bool() {
+			in = append(in, ids[k].Ext()) // and the canonical spelling of the same voxel
+			ids = append(ids, ids[k])
+		}
+		respelled = true
+		c.Tag("respelled-numerals")
+	}
 	inCopy := copyStrings(in)
 	var got []string
 	var err error
@@ -194,7 +221,7 @@ func runC03(c *core.Case) {
 		}
 	}
 	// region statement, checked independently by canonicalisation at a common fine zoom
-	if out, e := parseAll(got); e == nil {
+	if out, e := parseAll(got); e == nil && !veryLong {
 		fh, fv := ref.MaxZooms(ids, out)
 		if rin, ok := ref.Region(ids, fh, fv, 6000); ok {
 			if rout, ok2 := ref.Region(out, fh, fv, 12000); ok2 {
@@ -226,7 +253,7 @@ func runC03(c *core.Case) {
 			sp = append(sp, a)
 		}
 	}
-	if len(sp) > 0 {
+	if len(sp) > 0 && !respelled && !veryLong {
 		spIn := ref.Spatials(sp)
 		spGot, e := integrate.ChangeSpatialIdsZoom(spIn, H)
 		c.Call()
